@@ -6,10 +6,11 @@ continuation break (the parser joins stripped parts with one space)."""
 
 KEYWORDS = {'if', 'elif', 'else', 'endif', 'while', 'endwhile', 'for', 'endfor', 'function', 'endfunction', 'break',
             'continue', 'return', 'jump', 'jumpif', 'include', 'async', 'in', 'null', 'true', 'false'}
-VARS = ['x', 'y', 'zz', 'n1', 'count', 'item_2', '_t', 'ab', 'value', 'ix']
+VARS = ['x', 'y', 'zz', 'n1', 'count', 'item_2', '_t', 'ab', 'value', 'ix', 'e', 'f']
 FUNCS = ['fnA', 'fnB', 'doIt', 'arrayNew', 'arrayPush', 'systemLog', 'mathMax', 'objectGet', 'stringSlice', 'f2']
 STRINGS = ["'a'", "'two words'", "''", "'it\\'s'", "'back\\\\slash'", '"dq"', '"say \\"hi\\""', "'#not comment'",
-           "'colon: here'", "'a = b'", "'é𝄞'", "'(paren'", "'tab\\there'", '"semi; colon:"']
+           "'colon: here'", "'a = b'", "'é𝄞'", "'(paren'", "'tab\\there'", '"semi; colon:"', "'raw\ttab'", '"x\t\ty"',
+           "'  two  spaces  '"]
 BINOPS = ['+', '-', '*', '/', '%', '**', '==', '!=', '<', '<=', '>', '>=', '&&', '||']
 
 
@@ -43,7 +44,7 @@ class SourceGen:
                 return r.choice(STRINGS)
             if c2 < 0.92:
                 return r.choice(['null', 'true', 'false'])
-            return r.choice(['[a b]', '[x.y]', '[odd \\] name]'])
+            return r.choice(['[a b]', '[x.y]', '[odd \\] name]', '[tab\tname]'])
         if c < 0.55:
             return f'{self.expr(depth + 1, False)} {r.choice(BINOPS)} {self.expr(depth + 1, False)}'
         if c < 0.65:
@@ -81,7 +82,7 @@ class SourceGen:
             return f'jumpif ({self.expr(1)}) lab{r.randint(0, 3)}'
         if c < 0.95:
             return r.choice(["include 'lib.bare'", "include 'dir/other file.bare'", 'include <args.bare>',
-                             "include 'it\\'s.bare'"])
+                             "include 'it\\'s.bare'", "include 'tab\there.bare'", 'include <sys\tinc.bare>'])
         return f'{r.choice(VARS)} = {self.call()}'
 
     def block(self, depth, in_loop, in_func, n):
